@@ -22,9 +22,14 @@ struct Bounds {
     std::string msg;
 };
 
+std::atomic<int64_t> g_churned{0};
+
 bool op_valid(const Op& op) {
     if (op.kind == "seed") {
         return op.a.size() >= 1 && std::fabs(op.arg(0)) <= 2147483647.0;
+    }
+    if (op.kind == "churn") {
+        return op.a.size() >= 1 && op.iarg(0) >= 1 && op.iarg(0) <= 100;
     }
     if (op.kind != "g" || op.a.size() < 4) {
         return false;
@@ -54,6 +59,14 @@ bool op_valid(const Op& op) {
 void run_op(const Op& op, std::vector<double>& out, Bounds& bd) {
     if (op.kind == "seed") {
         dsplib::rng(int(op.iarg(0)));
+        return;
+    }
+    if (op.kind == "churn") {
+        // thread churn: short-lived threads come, draw once and go while this thread's sequence is in progress
+        for (int64_t i = 0; i < op.iarg(0); ++i) {
+            run_isolated([] { (void)dsplib::rand(); });
+        }
+        ++g_churned;
         return;
     }
     const int kind = int(op.iarg(0));
@@ -221,10 +234,18 @@ Plan gen(uint64_t seed, const std::string& tier) {
         }
         pl.ops.push_back(s);
         const int nsuf = int(r.range(1, 8));
+        const int churn_at = r.chance(0.05) ? int(r.range(0, nsuf - 1)) : -1;
         for (int i = 0; i < nsuf; ++i) {
             Op op = gen_g(r);
             op.thr = t;
             pl.ops.push_back(op);
+            if (i == churn_at) {
+                Op c;
+                c.kind = "churn";
+                c.thr = t;
+                c.a = {double(r.chance(0.6) ? r.range(30, 70) : r.range(1, 8))};
+                pl.ops.push_back(c);
+            }
         }
     }
     return pl;
@@ -298,7 +319,9 @@ Result exec(const Plan& pl) {
             sim::set_edge_budget(THREAD_EDGE_BUDGET);
             set_cur_opf("C19 reference replay of thread %d", t);
             for (const auto& op : suffix) {
-                run_op(op, ref1, b1);
+                if (op.kind != "churn") {   // the reference is the undisturbed sequence
+                    run_op(op, ref1, b1);
+                }
             }
         });
         // reference 2: a DIFFERENT history before the same rng(s)
@@ -313,7 +336,9 @@ Result exec(const Plan& pl) {
                 run_op(gen_g(r), junk, bj);
             }
             for (const auto& op : suffix) {
-                run_op(op, ref2, b1);
+                if (op.kind != "churn") {
+                    run_op(op, ref2, b1);
+                }
             }
         });
         auto same = [](const std::vector<double>& a, const std::vector<double>& b) {
@@ -339,6 +364,7 @@ Result exec(const Plan& pl) {
         run_history_calls("C19", HF_MEASURE, uint32_t(pl.iparam("measure_hist", 1)), 4, res);
     }
     res.inc("sim.threads", nthr);
+    res.inc("fault.thread_churn_during_sequence", g_churned.exchange(0));
     res.inc("probe.multi_thread_run", nthr > 1);
     if (nthr > 1 || pl.ops.size() > 2) {
         Hash h;
